@@ -372,7 +372,49 @@ class SV:
     def sign(self):
         return SV(z3.If(z3real(self) > 0, z3.RealVal(1), z3.If(z3real(self) < 0, z3.RealVal(-1), z3.RealVal(0))))
     def __round__(self, n=None):
-        raise Undecided("round() of symbolic value")
+        if n is not None:
+            raise Undecided("round(x, n) of symbolic value")
+        if self.kind in ("int", "bool"):
+            return SV(z3int(self))
+        # python rounds half to even; the result is a fresh integer with its defining property (memoised per term)
+        eng = _st.ENGINE
+        t = self.t
+        key = ("round", z3.simplify(t).sexpr())
+        memo = eng.math.sqrt_memo
+        if key in memo:
+            return SV(memo[key])
+        k = eng.fresh("rnd", z3.IntSort())
+        half = z3.RealVal("1/2")
+        d = t - z3.ToReal(k)
+        eng.assume(z3.And(d <= half, d >= -half, z3.Implies(z3.Or(d == half, d == -half), k % 2 == 0)), note="round-half-even definition")
+        memo[key] = k
+        return SV(k)
+
+    def __format__(self, spec):
+        return sv_token(self, spec)
+
+
+TOKEN_RE = __import__("re").compile(r"__sv(\d+)__")
+
+
+def sv_token(x, spec=""):
+    """text that stands for a symbolic number inside a string built by the code under test (str(x), f"{x}");
+    the harness turns the tokens back into the proxies with sv_untoken"""
+    c = concrete_value(x) if isinstance(x, SV) else None
+    if c is not None:
+        return format(c, spec)
+    if spec:
+        raise Undecided(f"format spec {spec!r} on a symbolic value")
+    eng = _st.ENGINE
+    toks = eng.__dict__.setdefault("tokens", [])
+    toks.append(x)
+    return f"__sv{len(toks) - 1}__"
+
+
+def sv_untoken(text):
+    """names for eval(): {token: proxy}"""
+    toks = _st.ENGINE.__dict__.get("tokens", [])
+    return {f"__sv{i}__": toks[i] for i in range(len(toks)) if f"__sv{i}__" in text}
 
 
 def int_divmod(a, b):
